@@ -11,6 +11,8 @@ pub mod c04;
 pub mod c05;
 pub mod c06;
 pub mod c08;
+pub mod c09;
+pub mod c10;
 pub mod c11;
 pub mod c12;
 pub mod c13;
@@ -76,6 +78,8 @@ pub fn dispatch(
     route!("C05", c05);
     route!("C06", c06);
     route!("C08", c08);
+    route!("C09", c09);
+    route!("C10", c10);
     route!("C11", c11);
     route!("C12", c12);
     route!("C13", c13);
